@@ -29,12 +29,58 @@ package spynode
 //@ type OutputFetcher
 //@   callbacks
 
-// Relevance of a transaction to the subscriptions: a function of the transaction and the filter
-// state (IsRelevant itself is specified under C08).
-//@ func (*Node).IsRelevant
+// ---- C08: the subscription filter ------------------------------------------------------------
+//
+// A data push is compared by pushhash(bytes): the 20 bytes themselves, or RIPEMD160(SHA256(bytes)).
+//@ func pushDataToHash
+//@   serves C08
+//@   requires bloblen(sliceblob(b)) == len(b)
+//@   ensures value: [C08] result == pushhash(sliceblob(b))
+
+// subscribed(n, h): h is in the node's list of subscribed 20-byte values
+//@ spec subscribedTo(n, h) = exists(k, 0, len(n.pushDataHashes), n.pushDataHashes[k] == h)
+//@ spec notSubscribed(n, h) = forall(k, 0, len(n.pushDataHashes), n.pushDataHashes[k] != h)
+// no item of script blob b before position hi is a push of a subscribed value
+//@ spec noHit(n, b, hi) = forall(q, 0, hi, tokkindb(b, q) == 7 ==> notSubscribed(n, pushhash(tokvalb(b, q))))
+
+// Contract-wide actions are recognised by the Tokenized protocol library (a dependency).
+//@ func checkContracts
 //@   trusted
 //@   opt modifies = none
-//@   ensures value: result == Relevant(tx)
+//@   ensures value: result == ContractAction(tx)
+
+// (script bytes as they were on entry: nothing writes them, and naming the entry state keeps the
+// invariants independent of the later blob bookkeeping)
+//@ spec lockblob(o) = old(sliceblob(o.LockingScript))
+//@ spec unlockblob(i) = old(sliceblob(i.UnlockingScript))
+// the reader r hands out exactly the items of script blob b
+//@ spec mirrors(r, b) = ntok(r) == blobntok(b) && forall(q, 0, ntok(r), tokkind(r, q) == tokkindb(b, q) && tokval(r, q) == tokvalb(b, q))
+//@ spec fbase(n, t) = same(n.pushDataHashes, t.TxOut, t.TxIn) && sameseq(n.pushDataHashes, t.TxOut, t.TxIn)
+//@ spec hitIn(n, b) = exists(q, 0, blobntok(b), tokkindb(b, q) == 7 && subscribedTo(n, pushhash(tokvalb(b, q))))
+//@ spec insClear(n, t, hi) = forall(o, 0, hi, noHit(n, unlockblob(t.TxIn[o]), blobntok(unlockblob(t.TxIn[o]))))
+//@ spec outsClear(n, t, hi) = forall(o, 0, hi, noHit(n, lockblob(t.TxOut[o]), blobntok(lockblob(t.TxOut[o]))))
+
+//@ func (*Node).IsRelevant
+//@   serves C08
+//@   opt nomonitor = 1
+//@   requires node != nil && tx != nil && forall(k, 0, len(tx.TxOut), tx.TxOut[k] != nil) && forall(k, 0, len(tx.TxIn), tx.TxIn[k] != nil)
+//@   assumes value: result == Relevant(tx)
+//@   loop 2 invariant 0 <= _i && _i <= len(tx.TxOut) && fbase(node, tx) && outsClear(node, tx, _i)
+//@   loop 0 invariant r != nil && 0 <= rpos(r) && rpos(r) <= ntok(r) && mirrors(r, lockblob(output)) && noHit(node, lockblob(output), rpos(r)) && fbase(node, tx)
+//@   loop 0 invariant 0 <= _i2 && _i2 < len(tx.TxOut) && output == tx.TxOut[_i2] && outsClear(node, tx, _i2)
+//@   loop 3 invariant 0 <= _i && _i <= len(node.pushDataHashes) && forall(k, 0, _i, node.pushDataHashes[k] != hash) && fbase(node, tx)
+//@   loop 3 invariant r != nil && 1 <= rpos(r) && rpos(r) <= ntok(r) && mirrors(r, lockblob(output)) && sinceloop(rpos(r) == old(rpos(r))) && noHit(node, lockblob(output), rpos(r) - 1)
+//@   loop 3 invariant 0 <= _i2 && _i2 < len(tx.TxOut) && output == tx.TxOut[_i2] && outsClear(node, tx, _i2)
+//@   loop 3 invariant tokkindb(lockblob(output), rpos(r) - 1) == 7 && hash == pushhash(tokvalb(lockblob(output), rpos(r) - 1))
+//@   loop 4 invariant 0 <= _i && _i <= len(tx.TxIn) && fbase(node, tx) && outsClear(node, tx, len(tx.TxOut)) && insClear(node, tx, _i)
+//@   loop 1 invariant r != nil && 0 <= rpos(r) && rpos(r) <= ntok(r) && mirrors(r, unlockblob(input)) && noHit(node, unlockblob(input), rpos(r)) && fbase(node, tx)
+//@   loop 1 invariant 0 <= _i4 && _i4 < len(tx.TxIn) && input == tx.TxIn[_i4] && insClear(node, tx, _i4) && outsClear(node, tx, len(tx.TxOut))
+//@   loop 5 invariant 0 <= _i && _i <= len(node.pushDataHashes) && forall(k, 0, _i, node.pushDataHashes[k] != hash) && fbase(node, tx)
+//@   loop 5 invariant r != nil && 1 <= rpos(r) && rpos(r) <= ntok(r) && mirrors(r, unlockblob(input)) && sinceloop(rpos(r) == old(rpos(r))) && noHit(node, unlockblob(input), rpos(r) - 1)
+//@   loop 5 invariant 0 <= _i4 && _i4 < len(tx.TxIn) && input == tx.TxIn[_i4] && insClear(node, tx, _i4) && outsClear(node, tx, len(tx.TxOut))
+//@   loop 5 invariant tokkindb(unlockblob(input), rpos(r) - 1) == 7 && hash == pushhash(tokvalb(unlockblob(input), rpos(r) - 1))
+//@   ensures no_false: [C08] result ==> (node.sendContracts && ContractAction(tx)) || exists(o, 0, len(tx.TxOut), hitIn(node, lockblob(tx.TxOut[o]))) || exists(o, 0, len(tx.TxIn), hitIn(node, unlockblob(tx.TxIn[o])))
+//@   ensures no_miss: [C08] !result ==> outsClear(node, tx, len(tx.TxOut)) && insClear(node, tx, len(tx.TxIn))
 
 // The proof handed to handlers is the library's proof with the header of the processed block.
 //@ spec converted(r, mp, header) = r != nil && r.Index == uint64(mp.Index) && r.Path == mp.Path && r.BlockHeader == header
@@ -120,3 +166,30 @@ package spynode
 //@   assert double_spend_is_unsafe at call HandleTx : [C05] len(conflicts) > 0 ==> arg2.State.UnSafe && !arg2.State.Safe
 //@   assert safe_needs_vouching at call HandleTx : [C07] arg2.State.Safe ==> len(conflicts) == 0
 //@   assert loser_flagged_unsafe at call HandleTxUpdate : [C05] isRelevant && arg2.State.UnSafe && !arg2.State.Safe
+
+// Subscribing appends, per given push data and in order, its 20-byte comparison value (the bytes
+// themselves when there are 20, their hash otherwise) — so raw data and its hash subscribe the same
+// value; nothing already subscribed is touched.
+//@ func (*Node).SubscribePushDatas
+//@   serves C08
+//@   opt nomonitor = 1
+//@   requires node != nil && forall(j, 0, len(pushDatas), bloblen(sliceblob(pushDatas[j])) == len(pushDatas[j]))
+//@   loop 0 invariant 0 <= _i && _i <= len(pushDatas) && len(node.pushDataHashes) == old(len(node.pushDataHashes)) + _i
+//@   loop 0 invariant forall(k, 0, old(len(node.pushDataHashes)), node.pushDataHashes[k] == old(node.pushDataHashes[k]))
+//@   loop 0 invariant forall(j, 0, _i, node.pushDataHashes[old(len(node.pushDataHashes)) + j] == pushhash(old(sliceblob(pushDatas[j]))))
+//@   ensures appended: [C08] result == nil && len(node.pushDataHashes) == old(len(node.pushDataHashes)) + len(pushDatas)
+//@        && forall(k, 0, old(len(node.pushDataHashes)), node.pushDataHashes[k] == old(node.pushDataHashes[k]))
+//@        && forall(j, 0, len(pushDatas), node.pushDataHashes[old(len(node.pushDataHashes)) + j] == pushhash(old(sliceblob(pushDatas[j]))))
+
+// Unsubscribing one push data removes the first subscribed entry equal to its comparison value and
+// nothing else (the others keep their order); a value that is not subscribed removes nothing.
+//@ func (*Node).UnsubscribePushDatas
+//@   serves C08
+//@   opt nomonitor = 1
+//@   opt partial = 1
+//@   requires node != nil && forall(j, 0, len(pushDatas), bloblen(sliceblob(pushDatas[j])) == len(pushDatas[j]))
+//@   loop 0 invariant 0 <= _i && _i <= len(pushDatas)
+//@   loop 1 invariant 0 <= _i && _i <= len(node.pushDataHashes) && sinceloop(same(node.pushDataHashes)) && forall(k, 0, _i, node.pushDataHashes[k] != hash) && hash == pushhash(old(sliceblob(pd)))
+//@   assert removes_first_match_only at afterloop 1 : [C08] (len(node.pushDataHashes) == sinceloop(old(len(node.pushDataHashes))) && forall(k, 0, len(node.pushDataHashes), node.pushDataHashes[k] != hash) && sinceloop(forall(k, 0, len(node.pushDataHashes), node.pushDataHashes[k] == old(node.pushDataHashes[k]))))
+//@         || (len(node.pushDataHashes) == sinceloop(old(len(node.pushDataHashes))) - 1 && sinceloop(old(node.pushDataHashes[_i])) == hash
+//@               && sinceloop(forall(k, 0, _i, node.pushDataHashes[k] == old(node.pushDataHashes[k]))) && sinceloop(forall(k, _i, len(node.pushDataHashes), node.pushDataHashes[k] == old(node.pushDataHashes[k+1]))))
